@@ -572,10 +572,34 @@ def str_to_case(M, ctx, s):
     v = as_str(M, s)
     p = v.py()
     if p is None:
-        # ASCII only for symbolic content
-        for b in v.bytes():
-            if is_sym(b) and not M.branch(z3.ULT(b, 128)): raise EncoderGap('unicode case mapping of symbolic text')
-        return str_to_ascii_case(M, ctx, s)
+        # symbolic content: ASCII letters map as usual; the non-ASCII characters whose Unicode case mapping is made of ASCII letters are
+        # mapped exactly (they are what makes this function differ from the ASCII one for protocol keywords); every other non-ASCII
+        # character maps to unconstrained non-ASCII bytes of the same length (sound for comparisons with ASCII text, nothing else)
+        up = ctx.method == 'to_uppercase'
+        special = ({(0xC4, 0xB1): b'I', (0xC5, 0xBF): b'S', (0xC3, 0x9F): b'SS', (0xEF, 0xAC, 0x80): b'FF', (0xEF, 0xAC, 0x81): b'FI', (0xEF, 0xAC, 0x82): b'FL',
+                    (0xEF, 0xAC, 0x83): b'FFI', (0xEF, 0xAC, 0x84): b'FFL', (0xEF, 0xAC, 0x85): b'ST', (0xEF, 0xAC, 0x86): b'ST'} if up
+                   else {(0xE2, 0x84, 0xAA): b'k'})
+        bs = list(v.bytes()); out = []; i = 0
+        while i < len(bs):
+            b = bs[i]
+            asc = (b < 128) if isinstance(b, int) else M.branch(z3.ULT(b, 128))
+            if asc:
+                if isinstance(b, int): out.append((b - 32 if 97 <= b <= 122 else b) if up else (b + 32 if 65 <= b <= 90 else b))
+                else: out.append(z3.If(z3.And(z3.UGE(b, 97), z3.ULE(b, 122)), b - 32, b) if up else z3.If(z3.And(z3.UGE(b, 65), z3.ULE(b, 90)), b + 32, b))
+                i += 1; continue
+            ln = next_char_len(M, v, i)
+            hit = None
+            for seq, rep in special.items():
+                if len(seq) != ln: continue
+                conds = [(bs[i + k] == seq[k]) for k in range(ln)]
+                c = all(conds) if all(isinstance(x, bool) for x in conds) else z3.And([x if not isinstance(x, bool) else z3.BoolVal(x) for x in conds])
+                if M.branch(c): hit = rep; break
+            if hit is not None: out.extend(hit)
+            else:
+                for k in range(ln):
+                    fb = M.fresh_bv('casemap', 8); M.assume(z3.UGE(fb, 128)); out.append(fb)
+            i += ln
+        return StringV(out)
     return mkstring(p.upper() if ctx.method == 'to_uppercase' else p.lower())
 
 @model(S + 'eq_ignore_ascii_case')
